@@ -39,7 +39,7 @@ type vfC11Case struct {
 	Directed bool        `json:"directed,omitempty"` // store: force the window between choosing the memtable and writing to it
 }
 
-var vfC11Targets = []string{"flat", "hnsw", "ivf", "pq", "ivfpq", "bm25", "metadata", "hybrid", "store", "store", "ids"}
+var vfC11Targets = []string{"flat", "hnsw", "ivf", "pq", "ivfpq", "bm25", "metadata", "hybrid", "store", "store", "ids", "store_flush_search"}
 
 func vfC11Gen(rt *rapid.T) vfC11Case {
 	c := vfC11Case{}
@@ -258,6 +258,9 @@ func vfC11Run(c vfC11Case, ctx *vfCtx) *vfViolation {
 	raceBefore, _ := vfRaceLog()
 	if c.Target == "ids" {
 		return vfC11AutoIDs(&c, ctx, raceBefore)
+	}
+	if c.Target == "store_flush_search" {
+		return vfC11FlushVsSearch(&c, ctx, filepath.Join(dir, "store"), raceBefore)
 	}
 	t, err := vfBuildConcTarget(&c, filepath.Join(dir, "store"))
 	if err != nil {
@@ -564,6 +567,126 @@ func vfC11AutoIDs(c *vfC11Case, ctx *vfCtx, raceBefore int64) *vfViolation {
 	}
 	if raceAfter, text := vfRaceLog(); raceAfter > raceBefore {
 		return vfFail("the race detector reported a data race in id generation:\n%s", text)
+	}
+	ctx.NonTrivial()
+	return nil
+}
+
+// vfC11FlushVsSearch: many segments on disk, writers that add and immediately flush, searchers that
+// loop: a search must contain every document whose add completed before it began, also while the
+// document moves from its memtable into a segment.
+func vfC11FlushVsSearch(c *vfC11Case, ctx *vfCtx, dir string, raceBefore int64) *vfViolation {
+	ctx.Class("target=store_flush_search")
+	conf := c.Conf
+	conf.MemLimit, conf.FlushThr = 1, 1<<40
+	st, err := vfOpenStore(dir, &conf)
+	if err != nil {
+		return vfFail("Open: %v", err)
+	}
+	defer st.Close()
+	warm := 16 + 3*len(c.Progs)
+	for i := 0; i < warm; i++ {
+		if err := st.AddWithID(uint32(1<<29+i), vfCloneF32(c.Vecs[i%len(c.Vecs)]), vfDocText(uint32(i)), map[string]interface{}{"n": i}); err != nil {
+			return vfFail("warm-up add: %v", err)
+		}
+	}
+	if err := st.Flush(); err != nil {
+		return vfFail("warm-up flush: %v", err)
+	}
+	G := len(c.Progs)
+	writers := 1 + G/6
+	var clock atomic.Int64
+	type added struct {
+		id  uint32
+		end int64
+	}
+	var mu sync.Mutex
+	var done []added
+	var stop atomic.Bool
+	var wg sync.WaitGroup
+	violations := make(chan string, G)
+	iters := 10 + len(c.Progs[0])/2
+	for w := 0; w < writers; w++ {
+		wg.Add(1)
+		go func(w int) {
+			defer wg.Done()
+			for j := 0; j < iters && !stop.Load(); j++ {
+				id := uint32(1<<30 + w*100000 + j)
+				if err := st.AddWithID(id, vfCloneF32(c.Vecs[j%len(c.Vecs)]), vfDocText(id), map[string]interface{}{"n": j}); err != nil {
+					violations <- fmt.Sprintf("writer %d: add of its own fresh document %d failed merely because of the interleaving: %v", w, id, err)
+					return
+				}
+				e := clock.Add(1)
+				mu.Lock()
+				done = append(done, added{id, e})
+				mu.Unlock()
+				if err := st.Flush(); err != nil {
+					violations <- fmt.Sprintf("writer %d: Flush failed merely because of the interleaving: %v", w, err)
+					return
+				}
+			}
+		}(w)
+	}
+	for r := 0; r < 3 && (r < G-writers || r < 2); r++ {
+		wg.Add(1)
+		go func(r int) {
+			defer wg.Done()
+			for !stop.Load() {
+				mu.Lock()
+				snapshot := append([]added(nil), done...)
+				mu.Unlock()
+				start := clock.Add(1)
+				res, err := st.NewSearch().WithVector(vfCloneF32(c.Vecs[r%len(c.Vecs)])).WithK(vfBigK).Execute()
+				if err != nil {
+					violations <- fmt.Sprintf("searcher %d: search failed merely because of the interleaving: %v", r, err)
+					return
+				}
+				got := map[uint32]bool{}
+				for _, x := range res {
+					got[x.ID] = true
+				}
+				for _, a := range snapshot {
+					if a.end < start && !got[a.id] {
+						violations <- fmt.Sprintf("a search that began at t=%d (%d results) does not return document %d whose add completed at t=%d (the document was being flushed from its memtable into a segment; %d writers, %d segments)", start, len(res), a.id, a.end, writers, vfStoreSegmentCount(st))
+						return
+					}
+				}
+			}
+		}(r)
+	}
+	// writers finish on their own; then stop the searchers
+	waitWriters := make(chan struct{})
+	go func() {
+		for {
+			mu.Lock()
+			n := len(done)
+			mu.Unlock()
+			if n >= writers*iters || stop.Load() {
+				close(waitWriters)
+				return
+			}
+			time.Sleep(time.Millisecond)
+		}
+	}()
+	select {
+	case v := <-violations:
+		stop.Store(true)
+		wg.Wait()
+		return vfFail("store: %s", v)
+	case <-waitWriters:
+	case <-time.After(120 * time.Second):
+		stop.Store(true)
+		return vfFail("store: the flush-vs-search workload did not finish within 120 s")
+	}
+	stop.Store(true)
+	wg.Wait()
+	select {
+	case v := <-violations:
+		return vfFail("store: %s", v)
+	default:
+	}
+	if raceAfter, text := vfRaceLog(); raceAfter > raceBefore {
+		return vfFail("the race detector reported a data race in the flush-vs-search workload:\n%s", text)
 	}
 	ctx.NonTrivial()
 	return nil
